@@ -53,6 +53,9 @@ def jobs():
 def attach_repo():
     """Make `import cvss` resolve to the working tree named by VERIF_REPO and verify it."""
     repo = repo_dir()
+    from . import simlock
+
+    simlock.install(os.path.join(repo, "cvss") + os.sep)  # before the first import of the package
     if sys.path[0] != repo:
         sys.path.insert(0, repo)
     for name in list(sys.modules):
